@@ -176,6 +176,34 @@ CHECKS = {
              "Four documented mix-in schemas that reference Start without defining it are listed as known findings.",
         technique="runtime exploration: BFS with the real machine as transition function + cone-of-influence BFS + random-walk validation, invariant oracle on every reached set",
         engine="registry", design_ref="5/C19"),
+    "C15": dict(
+        level="exploration",
+        text="A real node.Supervisor (timeouts shrunk to milliseconds, PRNG Min/Max/Warm 0..6, WorkerErrKill 1..3, also Min>Max by field assignment) runs with its TestFork/TestKill seams in "
+             "the hands of the harness: gated mode (the fork seam parks until released with nil or an error: fork storms against Max, normalisation and heartbeat rounds while forks are "
+             "parked, ErrWorker bursts with tracked addresses, kills), prompt mode (forks succeed at once, only the supervisor's own normalisation asks for forks, errors on several workers "
+             "at a time) and workers mode (the seam starts real in-memory node.Workers over loopback RPC that connect and become Ready; workers are stopped, errored, killed). A tracer on "
+             "the supervisor machine samples the worker map (verif accessor) at every TransitionEnd: tracked <= Max, no ForkingWorker accepted at Max, PoolStatus / PoolNormalized / worker "
+             "WorkStatus groups exclusive, error counts vs KillingWorker mutations carrying the address; verif data points in PoolReadyEnter/Exit report the ready count the handler saw and "
+             "its verdict, judged against min(Min,Max) recomputed by the oracle.",
+        note="Group exclusivity over all reachable sets of the shipped supervisor and worker schemas is covered by C19's reachability engine. The excess over Max caused by forks in flight "
+             "under external fork storms is a known finding; the same excess caused by the supervisor's own normalisation (prompt mode) is not listed and is reported.",
+        technique="runtime monitor: tracer + verif accessors/data points on a live supervisor with harness-driven fork/kill seams and real in-memory workers",
+        engine="components", design_ref="5/C15"),
+    "C16": dict(
+        level="exploration",
+        text="A headless am-dbg (tcell simulation screen, its real telemetry server on a loopback port) receives the streams of 1..3 real machines over PRNG schemas (relations, Multi, Auto, "
+             "an Err* state, a handler that issues follow-up mutations so that mutations are queued, Can* checks streamed or not) driven by PRNG histories; every source also carries an "
+             "independent recording tracer. After the stream arrived (count-based wait across the server's debounce) the N-th executed record is compared with the N-th traced transition "
+             "(id, clocks, accepted/check/auto), the derived data (TimeSum, TimeDiff, added/removed, descending Errors) with what consecutive records imply, TxIndex / TxAtMachTime / "
+             "TxAtQueueTick / HadErrSinceTx with a linear scan over the same arrays for every record (ids are also looked up before their records arrive), an export (verif accessor to the "
+             "dialog's export) with the records of a second debugger started from the file, and PRNG command sequences (UserFwd, UserBack, ScrollToTx, filter toggles, forward-then-back) "
+             "driven through the debugger machine's own states with the cursor and the filtered view checked after every command against a reference filter predicate. Busy streams keep "
+             "the debugger machine occupied across several debounce periods while telemetry keeps arriving.",
+        note="Lookups are compared with a scan over the debugger's own arrays; single steps are judged against the debugger's own filtered view, the view against an independent predicate "
+             "(only 'shows what does not match' is judged; a stale view hiding matching records after FilterCanceledTx/FilterQueuedTx switch FilterEmptyTx off is counted in the evidence, "
+             "the statement does not cover it). The GC path (tiny MaxMemMb) of the design was not built.",
+        technique="runtime monitor: differential between an independent recording tracer and the debugger's client arrays over a live loopback stream; reference cursor/filter model",
+        engine="components", design_ref="5/C16"),
     "C17": dict(
         level="exploration",
         text="PRNG schemas (2..6 states, relations, Multi, Auto) are driven by PRNG mutation histories on a handler-less machine under PRNG tracking configurations "
